@@ -258,3 +258,14 @@ def r8(ctx):
         n += full_traversal(ctx, b, ('arg', 2, ANY), 'decode-all-ids', 'de_tokenize of %s' % (b.impl_self or '?')[:60])
     if n < 2:
         raise AnchorMissing('de_tokenize loops over token_ids (found %d)' % n)
+
+
+@rule('C02', 'R-C02-9', 'prerequisite (framing and special-token split shared with the other tokenizers)',
+      'BPETokenizer::tokenize runs through the shared BaseTokenizer::split_input (pieces tile the text, matcher exact) and '
+      'add_prefix_and_suffix (prefix ++ ids ++ suffix, unconditional): R-C01-1, R-C01-3 and R-C01-6 re-evaluated -- a piece lost or cut '
+      'at the split, or a conditional frame, breaks the BPE round trip as well')
+def r9(ctx):
+    from rules import c01
+    c01.r1(ctx)
+    c01.r3(ctx)
+    c01.r6(ctx)
